@@ -18,6 +18,8 @@ pub struct PropSpec {
     pub needs_clock: bool,
     pub needs_entropy: bool,
     pub also_checked_profile: bool,
+    /// multiplier applied to the thorough-tier run counts of the non-exhaustive classes
+    pub thorough_boost: f64,
 }
 
 fn cs(scenario: &'static dyn crate::driver::Scenario, class: &'static str, quick: u64, thorough: u64, exhaustive: bool) -> ClassSpec {
@@ -42,6 +44,12 @@ pub fn spec(id: &str) -> Option<PropSpec> {
         needs_clock: false,
         needs_entropy: false,
         also_checked_profile: false,
+        thorough_boost: match id {
+            "C03" | "C06" | "C08" | "C17" | "C18" | "C19" => 1.5,
+            "C07" | "C09" => 2.0,
+            "C20" => 1.0,
+            _ => 3.0,
+        },
     };
     match id {
         "C06" => Some(base(
